@@ -17,7 +17,7 @@ import (
 )
 
 func init() {
-	stats.Rule("C01", "rapid cases: mapping kind in {log, linear, cubic}, alpha log-uniform in [1e-6,0.99] (+literals), one in four rebuilt from (gamma, non-default offset); positive/negative store kinds drawn independently from {dense, sparse, paginated}; n in [1,300] (1% up to 3000) values built from the mapping (bin edges +-4 ulps, representatives, powers of two, range ends, uniform in-bin fill, duplicates, both signs, zeros, sub-minimum magnitudes), added one at a time with Add; queries q=0, 1, k/(n-1) and both float neighbours, uniform, tiny, 1-2^-53, single and batch form. Oracle: exact sorted multiset with exact rational rank q*(n-1); the answer must be within alpha(+fp slack) of x_floor or x_ceil (0 must be answered as 0), q=0/q=1 must be bit-identical to the representative of the true extreme's bin. Non-trivial: >= 2 distinct non-empty bins and at least one interior q whose floor and ceiling order statistics lie in different bins; distinct by hash of the printed case.")
+	stats.Rule("C01", "rapid cases: mapping kind in {log, linear, cubic}, alpha log-uniform in [1e-9,0.99] (+literals), one in four rebuilt from (gamma, non-default offset); positive/negative store kinds drawn independently from {dense, sparse, paginated}; n in [1,300] (1% up to 3000) values built from the mapping (bin edges +-4 ulps, representatives, powers of two, range ends, uniform in-bin fill, duplicates, both signs, zeros, sub-minimum magnitudes), added one at a time with Add; queries q=0, 1, k/(n-1) and both float neighbours, uniform, tiny, 1-2^-53, single and batch form. Oracle: exact sorted multiset with exact rational rank q*(n-1); the answer must be within alpha(+fp slack) of x_floor or x_ceil (0 must be answered as 0), q=0/q=1 must be bit-identical to the representative of the true extreme's bin. Non-trivial: >= 2 distinct non-empty bins and at least one interior q whose floor and ceiling order statistics lie in different bins; distinct by hash of the printed case.")
 }
 
 // exactRank returns floor and ceil of q*(n-1) computed exactly.
@@ -110,7 +110,7 @@ func queryPoints(t *rapid.T, n int, cl *caseLog) []float64 {
 func TestC01(t *testing.T) {
 	rapid.Check(t, func(t *rapid.T) {
 		cl := newCase("C01")
-		c := drawCfg(t, cfgOpt{alphaLo: 1e-6, alphaHi: 0.99})
+		c := drawCfg(t, cfgOpt{alphaLo: 1e-9, alphaHi: 0.99})
 		d := drawDomain(t, c.m, windowFor(c))
 		prof := drawProfile(t)
 		n := rapid.IntRange(1, 300).Draw(t, "n")
